@@ -360,6 +360,23 @@ def replay(spec, path):
                                         oracle_name=getattr(cm, "ORACLE", "oracle"))
     mo = None if is_trace else qv.coq_model_output(entry["module"], obj["case"], workdir, run_name=getattr(cm, "RUN", "run"))
     log(json.dumps({"case": obj["case"], "impl_outputs": outs[0][:40], "model_outputs": mo, "codes": fails, "errors": errs}))
+    # a failure of a listed known class is reported as such (same rule as in the checks: the rest of
+    # the trace is re-validated with the class exempted)
+    if fails and not errs and all(f[1] == 2 for f in fails) and hasattr(cm, "classify"):
+        key = cm.classify(obj["case"], outs[0])
+        known = qv.load_known(pid) if key else {}
+        if key in known:
+            kp = getattr(cm, "KNOWN_PARAM", {}).get(key)
+            still = fails
+            if kp and is_trace:
+                c2 = [list(obj["case"][0]) + list(kp)]
+                still, errs = qv.mon_eval_cases(entry["module"], [c2], outs)
+            elif not is_trace:
+                still = []
+            if not still and not errs:
+                log(f"KNOWN-FINDING: property={pid} key={key} {known[key]}")
+                log(f"[{pid}] replay shows only the listed known finding")
+                return 0
     if fails or errs:
         log(f"VIOLATION property={pid} replay={path}" + ("" if any(f[1] == 2 for f in fails) else " no-failing-input-found"))
         return 1
